@@ -64,10 +64,15 @@ def metaLoop (valueFuel : Nat) : Nat → Nat → Bool → List (Str × MetaVal) 
           metaLoop valueFuel fuel indentLevel hasInd (dictSet acc key (.val v)) kp'
         else if op == .block then
           let _ ← advance
+          skipWhitespace false
+          let stNested ← get
           skipWhitespace
+          let c0 ← current
+          let hasNested := c0.type == .indent && (match c0.value with | .nat n => n | _ => 0) > indentLevel
+          if !hasNested then set stNested
           let c ← current
           let nested ← (do
-            if c.type == .indent then
+            if hasNested then
               let ni := (match c.value with | .nat n => n | _ => 0)
               let _ ← advance
               nestedMetaLoop valueFuel (← budget) ni true [] []
